@@ -4,7 +4,7 @@ import binascii
 from harness import common, refdes
 
 PROP = 'C14'
-RULE = ("(PIN 4..12 digits, PAN, key index 0..9, 2-/3-key DES key) with keys SEARCHED so that the second decimalisation "
+RULE = ("(PIN 4..12 digits, PAN of 12..19 digits, key index 0..9, 2-/3-key DES key) with keys SEARCHED so that the second decimalisation "
         "scan contributes 0,1,2,3,4 digits (class counts in the distribution); calculate_pvv and the to_pvv mix-in (also ONE object asked repeatedly with other index / PAN / key first); key "
         "component lists of 1..4 components incl. repeated components and permutations; KCV lengths; encrypted zone key. "
         "PVV/KCV/ZMK compared with a from-scratch DES/3DES reference + independent decimalisation, and with the Lean model "
@@ -209,7 +209,7 @@ def explore(run, tier):
     limit = 150000 if tier == 'quick' else 2000000
     while any(have[c] < want[c] for c in want) and tries < limit:
         tries += 1
-        pin, pan, idx, key = digits(4 + tries % 9), digits(13 + tries % 7), tries % 10, rkey(16 if tries % 2 else 24)
+        pin, pan, idx, key = digits(4 + tries % 9), digits(12 + tries % 8), tries % 10, rkey(16 if tries % 2 else 24)
         ct = fast_ct(pan[-12:-1] + str(idx) + pin[:4], key)
         cls = max(0, 4 - sum(c in '0123456789' for c in ct.hex()))
         if have[cls] < want[cls]:
@@ -222,10 +222,10 @@ def explore(run, tier):
         nd = i % 5            # number of decimal digits among the 16 hex digits: 0..4
         pos = rng.sample(range(16), nd)
         ct = ''.join(rng.choice('0123456789') if j in pos else rng.choice('abcdef') for j in range(16))
-        cases.append({'k': 'pvvstub', 'pin': digits(rng.randrange(4, 13)), 'pan': digits(rng.randrange(13, 20)),
+        cases.append({'k': 'pvvstub', 'pin': digits(rng.randrange(4, 13)), 'pan': digits(rng.randrange(12, 20)),
                       'idx': rng.randrange(10), 'ct': ct})
     for i in range(3000 if tier == 'quick' else 100000):
-        c = {'k': 'pvv', 'pin': digits(rng.randrange(4, 13)), 'pan': digits(rng.randrange(13, 20)),
+        c = {'k': 'pvv', 'pin': digits(rng.randrange(4, 13)), 'pan': digits(rng.randrange(12, 20)),
              'idx': rng.randrange(10), 'key': rkey(rng.choice([16, 24]))}
         if i % 10 == 0:
             # other ways to the same value: positional arguments, pin block objects rebuilt from (encrypted) bytes
@@ -233,7 +233,7 @@ def explore(run, tier):
         cases.append(c)
     # one pin block object asked repeatedly (other key index / PAN / key first)
     for i in range(120 if tier == 'quick' else 3000):
-        pin, pan, idx, key = digits(rng.randrange(4, 13)), digits(rng.randrange(13, 20)), rng.randrange(10), rkey(16)
+        pin, pan, idx, key = digits(rng.randrange(4, 13)), digits(rng.randrange(12, 20)), rng.randrange(10), rkey(16)
         before = [{'idx': (idx + 1 + j) % 10} if (i + j) % 3 == 0 else {'pan': digits(16)} if (i + j) % 3 == 1 else {'key': rkey(16)}
                   for j in range(rng.randrange(1, 4))]
         cases.append({'k': 'pvv', 'pin': pin, 'pan': pan, 'idx': idx, 'key': key, 'via': 'mixin-reuse', 'before': before})
